@@ -26,10 +26,12 @@ package croncontroller
 //@   requires w != nil && cronschedule.swf(w.schedule) && counts != nil && counts != w.schedule.jobConfigs.pq.names
 //@   modifies enqN, enqKey, enqTs, enqPerKey, mapof(counts), w.schedule.jobConfigs.pq.queue, arrays(*heap.Item), mapof(w.schedule.jobConfigs.pq.names), heap(heap.Item)
 //@   ensures [C01,C04] keeps-wf: cronschedule.swf(w.schedule)
-//@   ensures [C01,C04] at-most-one-request: enqN <= old(enqN) + 1
+//@   ensures [C01,C04] at-most-one-request: old(enqN) <= enqN && enqN <= old(enqN) + 1
+//@   ensures [C01,C04] no-request-no-count: enqN == old(enqN) ==> enqPerKey == old(enqPerKey)
+//@   ensures [C04] counter-steps: old(counts[key]) <= counts[key] && counts[key] <= old(counts[key]) + 1 && (counts[key] == old(counts[key]) + 1 ==> old(counts[key]) < maxCount)
 //@   ensures [C01,C04] request-is-for-popped-time: enqN == old(enqN) + 1 ==> enqKey[old(enqN)] == key && enqTs[old(enqN)] == ns(ts)
 //@        && enqPerKey[key] == old(enqPerKey[key]) + 1 && counts[key] == old(counts[key]) + 1 && old(counts[key]) < maxCount
-//@   ensures [C01,C04] earlier-requests-kept: forall i int :: 0 <= i && i < old(enqN) ==> enqKey[i] == old(enqKey[i]) && enqTs[i] == old(enqTs[i])
+//@   ensures [C01,C04] earlier-requests-kept: forall i int :: i < old(enqN) ==> enqKey[i] == old(enqKey[i]) && enqTs[i] == old(enqTs[i])
 //@   ensures [C01,C04] other-keys-uncounted: forall k string :: k != key ==> enqPerKey[k] == old(enqPerKey[k]) && counts[k] == old(counts[k])
 //@   ensures [C04] capped: old(counts[key]) >= maxCount ==> enqN == old(enqN) && counts[key] == old(counts[key])
 //@   ensures [C01] reinserted-after-ts: result == nil && enqN == old(enqN) + 1 && cronschedule.due(w.schedule, key) ==> cronschedule.dueAt(w.schedule, key) * 1000000000 > ns(ts)
@@ -61,10 +63,10 @@ package croncontroller
 //@   loop 1 invariant cronschedule.swf(w.schedule) && scheduledCount != nil && fresh(scheduledCount) && scheduledCount != w.schedule.jobConfigs.pq.names
 //@   loop 1 invariant enqN >= old(enqN) && clock >= old(clock)
 //@   loop 1 invariant never-early: forall i int :: old(enqN) <= i && i < enqN ==> enqTs[i] <= clock
-//@   loop 1 invariant log-append-only: forall i int :: 0 <= i && i < old(enqN) ==> enqKey[i] == old(enqKey[i]) && enqTs[i] == old(enqTs[i])
-//@   loop 1 invariant counted: forall k string :: enqPerKey[k] == old(enqPerKey[k]) + scheduledCount[k] && scheduledCount[k] >= 0
+//@   loop 1 invariant log-append-only: forall i int :: i < old(enqN) ==> enqKey[i] == old(enqKey[i]) && enqTs[i] == old(enqTs[i])
+//@   loop 1 invariant counted: forall k string :: old(enqPerKey[k]) <= enqPerKey[k] && enqPerKey[k] <= old(enqPerKey[k]) + scheduledCount[k] && scheduledCount[k] >= 0
 //@   loop 1 invariant capped: forall k string :: scheduledCount[k] <= capOf(maxMissedSchedules)
 //@   ensures [C01] keeps-wf: cronschedule.swf(w.schedule)
 //@   ensures [C01] never-early: forall i int :: old(enqN) <= i && i < enqN ==> enqTs[i] <= clock
-//@   ensures [C01] log-append-only: enqN >= old(enqN) && (forall i int :: 0 <= i && i < old(enqN) ==> enqKey[i] == old(enqKey[i]) && enqTs[i] == old(enqTs[i]))
+//@   ensures [C01] log-append-only: enqN >= old(enqN) && (forall i int :: i < old(enqN) ==> enqKey[i] == old(enqKey[i]) && enqTs[i] == old(enqTs[i]))
 //@   ensures [C01,C04] per-key-counts-only-grow: forall k string :: enqPerKey[k] >= old(enqPerKey[k])
